@@ -258,7 +258,13 @@ func (g *gen) genStatement(o string, typ types.Type) error {
 			return err
 		}
 		p.P("h = 31*h + %s", keyStr)
-		valStr, err := g.field(o+"[k]", ttyp.Elem())
+		valName := o + "[k]"
+		if named, isNamed := ttyp.Elem().(*types.Named); isNamed && hasHashMethod(named) {
+			// a Hash method with a pointer receiver cannot be called on a map element, which is not addressable
+			p.P("v := %s[k]", o)
+			valName = "v"
+		}
+		valStr, err := g.field(valName, ttyp.Elem())
 		if err != nil {
 			return err
 		}
